@@ -58,7 +58,7 @@ Lemma z_rollback_id c w s : c < w -> z_le c s -> z_eqv (z_rollback s w) s.
 Proof.
   intros Hc [Ha Hn]. rewrite z_rollback_eq. split; cbn [z_apex z_nodes].
   - rewrite (rs_rollback_id c); [apply rs_eqv_refl|exact Hc|exact Ha].
-  - rewrite al_map_id; [apply ns_eqv_refl|]. intros p Hin. rewrite Forall_forall in Hn. destruct (Hn p Hin) as [H1 H2].
+  - rewrite al_map_id; [apply ns_le_refl|]. intros p Hin. rewrite Forall_forall in Hn. destruct (Hn p Hin) as [H1 H2].
     destruct p as [k [rs sp]]. cbn [snd n_rrsets n_special] in *. rewrite n_rollback_eq. cbn [n_rrsets n_special].
     f_equal; [now apply (rs_rollback_id c)|now apply (rollback_id c)].
 Qed.
@@ -72,12 +72,6 @@ Definition zinv (s : zstate) : Prop :=
   | Some wr =>
       w_new wr = z_cur s + 1 /\ (w_open wr = true -> w_dirty wr = true) /\
       (if w_dirty wr then z_q (z_cur s) (z_cur s + 1) s else z_le (z_cur s) s)
-  end.
-
-Fixpoint no_create (s : zstate) (evs : list event) : bool :=
-  match evs with
-  | [] => true
-  | e :: tl => negb (creates s e) && no_create (step s e) tl
   end.
 
 Fixpoint ncommits (evs : list event) : N :=
@@ -116,13 +110,13 @@ Proof. intros Hc Hr. rewrite ver_le_small by lia. apply N.leb_gt. lia. Qed.
 (* ---------------------------------------------------------------- one step *)
 
 Lemma step_inv s e :
-  zinv s -> z_cur s + 2 < LIM -> creates s e = false ->
+  zinv s -> z_cur s + 2 < LIM ->
   zinv (step s e) /\
   z_cur s <= z_cur (step s e) /\
   z_cur (step s e) <= z_cur s + (match e with ECommit => 1 | _ => 0 end) /\
   (forall r, r <= z_cur s -> view_eq (step s e) s r).
 Proof.
-  unfold LIM. intros Hinv Hlim Hcr.
+  unfold LIM. intros Hinv Hlim.
   assert (Hsame : forall k, zinv s /\ z_cur s <= z_cur s /\ z_cur s <= z_cur s + k /\ (forall r, r <= z_cur s -> view_eq s s r)).
   { intros k. repeat split; try lia; auto. }
   assert (Hdata : is_data e = true ->
@@ -136,7 +130,7 @@ Proof.
     rewrite Hst. unfold zinv in Hinv. destruct (z_writer s) as [wr|] eqn:Hw; [|exact (Hsame _)].
     destruct (w_open wr) eqn:Hop; [|exact (Hsame _)].
     destruct Hinv as [Hnew [Hod Hq]]. rewrite (Hod eq_refl) in Hq. rewrite Hnew.
-    destruct (data_op_base (z_cur s) (z_cur s + 1) s e ltac:(lia) Hq Hcr) as [Hq' Heqv].
+    destruct (data_op_base (z_cur s) (z_cur s + 1) s e ltac:(lia) Hq) as [Hq' Heqv].
     assert (Hfields : z_cur (data_op s (z_cur s + 1) e) = z_cur s /\ z_writer (data_op s (z_cur s + 1) e) = z_writer s).
     { destruct e; cbn [data_op]; try (split; reflexivity);
         try (destruct (name =? 0); split; reflexivity). }
@@ -147,9 +141,9 @@ Proof.
     - rewrite Hc'. lia.
     - intros name t.
       rewrite <- (query_base (z_cur s + 1) (data_op s (z_cur s + 1) e) r) by (apply below_open; unfold LIM; lia).
-      rewrite (query_eqv _ _ r name t Heqv). apply query_base. apply below_open; unfold LIM; lia.
+      rewrite <- (query_eqv _ _ r name t Heqv). apply query_base. apply below_open; unfold LIM; lia.
     - rewrite <- (walk_base (z_cur s + 1) (data_op s (z_cur s + 1) e) r) by (apply below_open; unfold LIM; lia).
-      rewrite (walk_eqv _ _ r Heqv). apply walk_base. apply below_open; unfold LIM; lia. }
+      rewrite <- (walk_eqv _ _ r Heqv). apply walk_base. apply below_open; unfold LIM; lia. }
   destruct e; try (apply Hdata; reflexivity); try exact (Hsame _).
   - (* EWAcquire *)
     destruct (z_writer s) as [wr|] eqn:Hw.
@@ -212,19 +206,17 @@ Qed.
 (* ---------------------------------------------------------------- traces *)
 
 (* snapshot isolation: over every trace of API calls, a reader pinned at a
-   version r <= current keeps reading exactly the same answers and the same walk,
-   as long as no data operation creates a node (known defect, see the witness). *)
+   version r <= current keeps reading exactly the same answers and the same walk *)
 Theorem snapshot_isolation : forall evs s r,
-  zinv s -> r <= z_cur s -> z_cur s + ncommits evs + 2 < LIM -> no_create s evs = true ->
+  zinv s -> r <= z_cur s -> z_cur s + ncommits evs + 2 < LIM ->
   (forall name t, query (run s evs) r name t = query s r name t) /\ walk (run s evs) r = walk s r.
 Proof.
-  induction evs as [|e tl IH]; intros s r Hinv Hr Hlim Hnc; [split; reflexivity|].
-  cbn [no_create] in Hnc. apply andb_prop in Hnc. destruct Hnc as [Hc Hnc]. apply negb_true_iff in Hc.
+  induction evs as [|e tl IH]; intros s r Hinv Hr Hlim; [split; reflexivity|].
   assert (Hl : z_cur s + 2 < LIM) by (cbn [ncommits] in Hlim; destruct e; lia).
-  destruct (step_inv s e Hinv Hl Hc) as [Hinv' [Hmono [Hup Hview]]].
+  destruct (step_inv s e Hinv Hl) as [Hinv' [Hmono [Hup Hview]]].
   cbn [run fold_left]. change (fold_left step tl (step s e)) with (run (step s e) tl).
   assert (Hlim' : z_cur (step s e) + ncommits tl + 2 < LIM) by (cbn [ncommits] in Hlim; destruct e; lia).
-  destruct (IH (step s e) r Hinv' ltac:(lia) Hlim' Hnc) as [H1 H2].
+  destruct (IH (step s e) r Hinv' ltac:(lia) Hlim') as [H1 H2].
   destruct (Hview r Hr) as [H3 H4]. split; [intros; now rewrite H1|congruence].
 Qed.
 
@@ -240,25 +232,23 @@ Proof. intros H. induction H as [|e tl He _ IH]; [reflexivity|]. destruct e; cbn
 Lemma session_run ops : forall s wr,
   all_data ops -> z_writer s = Some wr -> w_open wr = true -> w_dirty wr = true ->
   w_new wr = z_cur s + 1 -> z_q (z_cur s) (z_cur s + 1) s -> z_cur s + 1 < LIM ->
-  no_create s ops = true ->
   let s' := run s ops in
   z_writer s' = Some wr /\ z_cur s' = z_cur s /\ z_q (z_cur s) (z_cur s + 1) s' /\
-  z_eqv (z_rollback s' (z_cur s + 1)) (z_rollback s (z_cur s + 1)).
+  z_eqv (z_rollback s (z_cur s + 1)) (z_rollback s' (z_cur s + 1)).
 Proof.
-  induction ops as [|e tl IH]; intros s wr Hd Hw Hop Hdi Hnew Hq Hlim Hnc.
+  induction ops as [|e tl IH]; intros s wr Hd Hw Hop Hdi Hnew Hq Hlim.
   - cbn. split; [exact Hw|split; [reflexivity|split; [exact Hq|apply z_eqv_refl]]].
-  - inversion Hd as [|? ? He Htl]; subst. cbn [no_create] in Hnc. apply andb_prop in Hnc. destruct Hnc as [Hc Hnc].
-    apply negb_true_iff in Hc.
+  - inversion Hd as [|? ? He Htl]; subst.
     assert (Hst : step s e = data_op s (z_cur s + 1) e).
     { destruct e; cbn [is_data] in He; try discriminate; cbn [step is_data]; now rewrite Hw, Hop, Hnew. }
-    destruct (data_op_base (z_cur s) (z_cur s + 1) s e ltac:(lia) Hq Hc) as [Hq' Heqv].
+    destruct (data_op_base (z_cur s) (z_cur s + 1) s e ltac:(lia) Hq) as [Hq' Heqv].
     assert (Hfields : z_cur (data_op s (z_cur s + 1) e) = z_cur s /\ z_writer (data_op s (z_cur s + 1) e) = z_writer s).
     { destruct e; cbn [data_op]; try (split; reflexivity); try (destruct (name =? 0); split; reflexivity). }
     destruct Hfields as [Hc' Hw'].
     cbn [run fold_left]. change (fold_left step tl (step s e)) with (run (step s e) tl). rewrite Hst in *.
     specialize (IH (data_op s (z_cur s + 1) e) wr Htl).
     rewrite Hc', Hw' in IH.
-    destruct (IH Hw Hop Hdi Hnew Hq' Hlim Hnc) as [H1 [H2 [H3 H4]]].
+    destruct (IH Hw Hop Hdi Hnew Hq' Hlim) as [H1 [H2 [H3 H4]]].
     split; [exact H1|split; [exact H2|split; [exact H3|eapply z_eqv_trans; eauto]]].
 Qed.
 
@@ -275,41 +265,35 @@ Proof.
   exact (z_le_q (z_cur s) (z_cur s + 1) s ltac:(lia) Hinv).
 Qed.
 
-Lemma no_create_same a b evs : same_data a b -> z_writer a = z_writer b -> z_cur a = z_cur b -> no_create a evs = no_create b evs.
-Proof.
-  intros [H1 H2] H3 H4. destruct a, b. cbn in *. subst. reflexivity.
-Qed.
-
 (* abort is invisible: a writer session that is dropped uncommitted leaves every
    answer and the walk of EVERY version (old, current and future) unchanged,
-   provided it created no node *)
+   including the sessions that call update_child for names that have no node *)
 Theorem abort_invisible : forall s ops,
   zinv s -> z_writer s = None -> z_cur s + 1 < LIM -> all_data ops ->
-  no_create (run s [EWAcquire; EWOpen]) ops = true ->
   let s' := run s ([EWAcquire; EWOpen] ++ ops ++ [EDrop]) in
   z_cur s' = z_cur s /\ z_writer s' = None /\
   forall v, (forall name t, query s' v name t = query s v name t) /\ walk s' v = walk s v.
 Proof.
-  intros s ops Hinv Hw Hlim Hd Hnc.
+  intros s ops Hinv Hw Hlim Hd.
   destruct (open_session s Hinv Hw Hlim) as [Hsd [Hc1 [Hw1 Hq1]]].
   set (s1 := run s [EWAcquire; EWOpen]) in *.
   rewrite <- Hc1 in Hq1.
   assert (Hn1 : w_new (mkw (z_cur s + 1) true true) = z_cur s1 + 1) by (cbn [w_new]; now rewrite Hc1).
   assert (Hl1 : z_cur s1 + 1 < LIM) by (now rewrite Hc1).
-  destruct (session_run ops s1 _ Hd Hw1 eq_refl eq_refl Hn1 Hq1 Hl1 Hnc) as [Hw2 [Hc2 [Hq2 Heqv]]].
+  destruct (session_run ops s1 _ Hd Hw1 eq_refl eq_refl Hn1 Hq1 Hl1) as [Hw2 [Hc2 [Hq2 Heqv]]].
   cbn zeta. rewrite !run_app. fold s1. set (s2 := run s1 ops) in *.
   cbn [run fold_left step]. rewrite Hw2. cbv [drop_rolls_back_when_dirty]. cbn [w_dirty w_new andb].
   cbn [set_writer z_cur z_writer]. rewrite z_rollback_eq. cbn [z_cur].
   repeat split; [congruence| |].
   - intros name t.
     rewrite (query_same _ (z_rollback s2 (z_cur s + 1))) by (split; reflexivity).
-    rewrite <- Hc1 in *. rewrite (query_eqv _ _ v name t Heqv).
+    rewrite <- Hc1 in *. rewrite <- (query_eqv _ _ v name t Heqv).
     rewrite (query_eqv _ _ v name t (z_rollback_id (z_cur s1) (z_cur s1 + 1) s1 ltac:(lia)
        ltac:(destruct Hsd as [E1 E2]; unfold zinv in Hinv; rewrite Hw in Hinv; destruct Hinv as [I1 I2];
              split; [rewrite E1, Hc1; exact I1|rewrite E2, Hc1; exact I2]))).
     now apply query_same.
   - rewrite (walk_same _ (z_rollback s2 (z_cur s + 1))) by (split; reflexivity).
-    rewrite <- Hc1 in *. rewrite (walk_eqv _ _ v Heqv).
+    rewrite <- Hc1 in *. rewrite <- (walk_eqv _ _ v Heqv).
     rewrite (walk_eqv _ _ v (z_rollback_id (z_cur s1) (z_cur s1 + 1) s1 ltac:(lia)
        ltac:(destruct Hsd as [E1 E2]; unfold zinv in Hinv; rewrite Hw in Hinv; destruct Hinv as [I1 I2];
              split; [rewrite E1, Hc1; exact I1|rewrite E2, Hc1; exact I2]))).
@@ -322,7 +306,6 @@ Qed.
    version current -- all of them at once. *)
 Theorem commit_atomic : forall s ops,
   zinv s -> z_writer s = None -> z_cur s + 2 < LIM -> all_data ops ->
-  no_create (run s [EWAcquire; EWOpen]) ops = true ->
   let sN := run s ([EWAcquire; EWOpen] ++ ops) in
   let sC := step sN ECommit in
   (z_cur sN = z_cur s /\
@@ -330,21 +313,20 @@ Theorem commit_atomic : forall s ops,
   (z_cur sC = z_cur s + 1 /\
    forall v, (forall name t, query sC v name t = query sN v name t) /\ walk sC v = walk sN v).
 Proof.
-  intros s ops Hinv Hw Hlim Hd Hnc.
+  intros s ops Hinv Hw Hlim Hd.
   destruct (open_session s Hinv Hw ltac:(lia)) as [Hsd [Hc1 [Hw1 Hq1]]].
   set (s1 := run s [EWAcquire; EWOpen]) in *.
   rewrite <- Hc1 in Hq1.
   assert (Hn1 : w_new (mkw (z_cur s + 1) true true) = z_cur s1 + 1) by (cbn [w_new]; now rewrite Hc1).
   assert (Hl1 : z_cur s1 + 1 < LIM) by (rewrite Hc1; unfold LIM in *; lia).
-  destruct (session_run ops s1 _ Hd Hw1 eq_refl eq_refl Hn1 Hq1 Hl1 Hnc) as [Hw2 [Hc2 [Hq2 Heqv]]].
+  destruct (session_run ops s1 _ Hd Hw1 eq_refl eq_refl Hn1 Hq1 Hl1) as [Hw2 [Hc2 [Hq2 Heqv]]].
   cbn zeta. rewrite !run_app. fold s1. set (s2 := run s1 ops) in *.
   split.
   - assert (Hiso : (forall name t, query (run s ([EWAcquire; EWOpen] ++ ops)) (z_cur s) name t = query s (z_cur s) name t) /\
                    walk (run s ([EWAcquire; EWOpen] ++ ops)) (z_cur s) = walk s (z_cur s)).
-    { apply snapshot_isolation; [exact Hinv|lia| |].
-      - assert (E : ncommits ([EWAcquire; EWOpen] ++ ops) = 0) by (cbn [app ncommits]; now apply ncommits_data).
-        rewrite E. lia.
-      - cbn [app no_create]. unfold creates at 1 2. cbn [touches negb andb]. exact Hnc. }
+    { apply snapshot_isolation; [exact Hinv|lia|].
+      assert (E : ncommits ([EWAcquire; EWOpen] ++ ops) = 0) by (cbn [app ncommits]; now apply ncommits_data).
+      rewrite E. lia. }
     rewrite run_app in Hiso. fold s1 s2 in Hiso. destruct Hiso as [H1 H2].
     repeat split; [congruence|exact H1|exact H2].
   - cbn [step]. rewrite Hw2. cbv [publish_sets_current_to_new publish_advances_new_version publish_clears_dirty].
@@ -394,7 +376,7 @@ Proof.
       destruct H as [H|[-> E]]; [left; split; [reflexivity|exact H]|right]. rewrite E. now left.
 Qed.
 
-(* ---------------------------------------------------------------- the known defect *)
+(* ---------------------------------------------------------------- non-vacuity *)
 
 Definition wit_zone : zstate := build [IRrset 0 6 1; IRrset 2 1 11].
 
@@ -403,34 +385,19 @@ Proof.
   repeat split; cbn; repeat constructor; cbn; lia.
 Qed.
 
-(* node existence is not versioned: a reader held since before the writer called
-   update_child for a new name sees NXDOMAIN turn into NOERROR/NODATA *)
-Lemma snapshot_isolation_refuted :
-  exists s evs r name t,
-    zinv s /\ r <= z_cur s /\ z_cur s + ncommits evs + 2 < LIM /\ no_create s evs = false /\
-    query s r name t = ANx (Some 1) /\ query (run s evs) r name t = ANoData (Some 1).
-Proof.
-  exists wit_zone, [EWAcquire; EWOpen; EUpdate 3 1 12], 0, 3, 1.
-  split; [exact (proj1 wit_zinv)|]. repeat split; try reflexivity; cbn; unfold LIM; lia.
-Qed.
+(* the history of DESIGN section 7 #13 (node existence used not to be versioned):
+   update_child for a new name, seen by a held reader, then aborted / committed *)
+Example ex_update_child_invisible :
+  let s1 := run wit_zone [EWAcquire; EWOpen; EUpdate 3 1 12] in
+  query wit_zone 0 3 1 = ANx (Some 1) /\
+  query s1 0 3 1 = ANx (Some 1) /\
+  query (run s1 [EDrop]) 0 3 1 = ANx (Some 1) /\
+  query (run s1 [ECommit]) 0 3 1 = ANx (Some 1) /\
+  query (run s1 [ECommit]) 1 3 1 = AData 12 /\
+  node_exists (z_nodes (run s1 [EDrop])) 3 = true.
+Proof. repeat split; reflexivity. Qed.
 
-(* ... and the created node survives the rollback of an aborted writer *)
-Lemma abort_invisible_refuted :
-  exists s ops name t,
-    zinv s /\ z_writer s = None /\ z_cur s + 1 < LIM /\ all_data ops /\
-    no_create (run s [EWAcquire; EWOpen]) ops = false /\
-    let s' := run s ([EWAcquire; EWOpen] ++ ops ++ [EDrop]) in
-    z_writer s' = None /\
-    query s (z_cur s') name t = ANx (Some 1) /\ query s' (z_cur s') name t = ANoData (Some 1).
-Proof.
-  exists wit_zone, [EUpdate 3 1 12], 3, 1.
-  split; [exact (proj1 wit_zinv)|]. repeat split; try reflexivity; try (cbn; unfold LIM; lia).
-  repeat constructor.
-Qed.
-
-(* non-vacuity of the positive theorems: a session on an existing name *)
-Example ex_session_no_create :
-  no_create (run wit_zone [EWAcquire; EWOpen]) [EUpdate 2 1 13; ERemove 2 1; EUpdate 2 16 14; ERemoveAll; EUpdate 0 6 2] = true /\
+Example ex_session :
   query (run wit_zone ([EWAcquire; EWOpen] ++ [EUpdate 2 1 13])) 0 2 1 = AData 11 /\
   query (run wit_zone ([EWAcquire; EWOpen] ++ [EUpdate 2 1 13] ++ [ECommit])) 1 2 1 = AData 13 /\
   query (run wit_zone ([EWAcquire; EWOpen] ++ [EUpdate 2 1 13] ++ [ECommit])) 0 2 1 = AData 11 /\
